@@ -399,7 +399,6 @@ def attach(res, texts, label, audit=True, limit=None):
         for mth in missing:
             res.obligations.append(mth)
             res.broke('theorem:' + mth, 'not found by the audit')
-    texts = [t for t in texts if all(ord(ch) < 128 for ch in t)]      # ASCII: domain of the envelope model's int()
     texts = list(texts)[:limit] if limit else list(texts)
     if not texts:
         return
